@@ -244,11 +244,11 @@ Qed.
 Lemma nolk_kind_of : forall kd arg, kd <> KLongjmp -> forall a, kind_of kd arg <> SLongjmp a.
 Proof. intros kd arg H a. destruct kd; simpl; try discriminate. congruence. Qed.
 
-Lemma J_plthook_entry : forall s g kd k loc arg, J s g -> kd <> KLongjmp ->
-  exists g', J (plthook_entry s kd k loc arg) g'.
+Lemma J_plthook_push : forall s g kd k loc arg, J s g -> kd <> KLongjmp ->
+  exists g', J (plthook_push s kd k loc arg) g'.
 Proof.
-  intros s g kd k loc arg HJ Hkd. pose proof (plthook_entry_linv s kd k loc arg (J_linv _ _ HJ)) as Hl'.
-  destruct HJ as [HP [Hl Hs]]. unfold plthook_entry in *.
+  intros s g kd k loc arg HJ Hkd. pose proof (plthook_push_linv s kd k loc arg (J_linv _ _ HJ)) as Hl'.
+  destruct HJ as [HP [Hl Hs]]. unfold plthook_push in *.
   set (e := new_ent s true k loc (kind_of kd arg)) in *.
   assert (He : e_depth e = N.of_nat (length (rs s))) by (destruct Hl as [A _]; exact A).
   (* the pushed entry, before the special handling; for setjmp the snapshot goes into the list *)
@@ -276,6 +276,20 @@ Proof.
   - (* KExcept *)
     exists g. split; [|split; [exact Hl'|exact Hs]]. cbn [rs out jbs]. rewrite app_nil_r.
     apply P_push_normal; auto.
+Qed.
+
+Lemma J_pre_plt : forall s g loc, J s g ->
+  exists g', J (if inexc s then with_exc (rehook_exception s loc) false else s) g'.
+Proof.
+  intros s g loc HJ. destruct (inexc s); [|eauto].
+  destruct (J_rehook_exception s g loc HJ) as [g' H']. exists g'. apply J_with_exc. exact H'.
+Qed.
+
+Lemma J_plthook_entry : forall s g kd k loc arg, J s g -> kd <> KLongjmp ->
+  exists g', J (plthook_entry s kd k loc arg) g'.
+Proof.
+  intros s g kd k loc arg HJ Hkd. unfold plthook_entry. destruct (J_pre_plt s g loc HJ) as [g1 H1].
+  eapply J_plthook_push; eauto.
 Qed.
 
 (* ---------------------------------------------------------------- longjmp *)
@@ -310,10 +324,16 @@ Proof.
   intros s g k sl r arg s' ob HJ Hpc Hst. cbn [lstep] in Hst.
   set (s0 := with_m s (upd (m s) sl r)) in *.
   assert (HJ0 : J s0 g) by (apply J_with_m; exact HJ).
-  set (s1 := plthook_entry s0 KLongjmp k sl arg) in *.
-  assert (Hl1 : linv s1) by (apply plthook_entry_linv; exact (J_linv _ _ HJ0)).
+  destruct (J_pre_plt s0 g sl HJ0) as [gA HJA].
+  set (sA := if inexc s0 then with_exc (rehook_exception s0 sl) false else s0) in *.
+  assert (HpcA : assoc arg (jpc sA) = Some PRET).
+  { unfold sA. destruct (inexc s0); [|exact Hpc]. unfold rehook_exception. destruct (pop_unwound _ _ _ _ _) as [[? ?] ?]. exact Hpc. }
+  change (plthook_entry s0 KLongjmp k sl arg) with (plthook_push sA KLongjmp k sl arg) in Hst.
+  clear HJ0. rename HJA into HJ0. clearbody sA. clear s0 Hpc HJ. clear g. rename sA into s0. rename gA into g.
+  set (s1 := plthook_push s0 KLongjmp k sl arg) in *.
+  assert (Hl1 : linv s1) by (apply plthook_push_linv; exact (J_linv _ _ HJ0)).
   assert (Hjpc : assoc arg (jpc s1) = Some PRET).
-  { unfold s1, plthook_entry. cbn [is_flush]. destruct (rtd _ _) as [[? ?] ?]. exact Hpc. }
+  { unfold s1, plthook_push. cbn [is_flush]. destruct (rtd _ _) as [[? ?] ?]. exact HpcA. }
   rewrite Hjpc in Hst.
   destruct (follow (fuel_of s1) s1 PRET 0) as [[[s2' v] n]|] eqn:Ef; [|discriminate]. inversion Hst; subst s' ob. clear Hst.
   unfold fuel_of in Ef. rewrite follow_S in Ef. change (is_tramp PRET) with true in Ef. change (PRET =? MRET) with false in Ef. cbv iota in Ef.
@@ -326,7 +346,7 @@ Proof.
   (* the entry hook: flush of the ancestors, then the ENTRY record of longjmp itself *)
   set (e := new_ent s0 true k sl (SLongjmp arg)).
   assert (Hew : e_written e = false) by reflexivity.
-  unfold s1, plthook_entry in Ex. cbn [is_flush kind_of] in Ex. fold e in Ex.
+  unfold s1, plthook_push in Ex. cbn [is_flush kind_of] in Ex. fold e in Ex.
   unfold rtd in Ex. rewrite Hew in Ex. cbv iota in Ex.
   pose proof (flush_anc_feed (rs s0) g (p_dc _ _ _ _ HP) (p_dep _ _ _ _ HP) (p_nolk _ _ _ _ HP) (p_pend _ _ _ _ HP) (p_depth _ _ _ _ HP))
     as [g1 [E1 [P1 [D1 [W1 J1]]]]].
